@@ -243,10 +243,12 @@ def run_cli_case(impl, case, workdir, timeout=20, cover=False):
         if cover and COVDIR: full_env["GOCOVERDIR"] = COVDIR
         cmd = [impl["hr"]] + argv
         if "@default-config" in case.get("files", {}):
-            # the default configuration file lives in the passwd home directory (/root): give the
-            # process a private mount namespace with a scratch directory bound over /root
-            home = os.path.join(d, "@home"); os.makedirs(os.path.join(home, ".hranoprovod"))
-            open(os.path.join(home, ".hranoprovod", "config"), "wb").write(cfg_file_text(case["files"]["@default-config"]["cfg"]))
+            # the default configuration file is $HOME/.hranoprovod/config, as documented (fix F28; before, the home directory of the password
+            # database was used whatever HOME said).  HOME is the case directory; the directory the password database names (/root) is
+            # covered by an empty scratch directory in a private mount namespace, so that a program that looks there finds nothing
+            os.makedirs(os.path.join(d, ".hranoprovod"))
+            open(os.path.join(d, ".hranoprovod", "config"), "wb").write(cfg_file_text(case["files"]["@default-config"]["cfg"]))
+            home = os.path.join(d, "@home"); os.makedirs(home)
             if os.path.realpath(cmd[0]).startswith("/root/"):
                 # the binary itself lives under /root (a snapshot run): the bind mount would hide it; run_cli_cases made one copy outside
                 # (one copy per batch, made before any worker thread starts: a file still open for writing in a forking process cannot be executed)
